@@ -1005,5 +1005,49 @@ func GenTransport(g *pk.Gen) {
 			}
 			off += 8 + len(p.Body)
 		}
+		// packet level fuzz (C10): header bytes replaced by arbitrary values (incl. length < 8, other channels, other
+		// types), and arbitrary byte streams; at most a handful of bad headers so that the connection's error queue
+		// (capacity 10) never fills before the stream ends
+		if g.WantTag("wire-fuzz") && len(pkts) <= 4 {
+			for r := 0; r < 12; r++ {
+				mut := append([]byte{}, wire...)
+				hoff := 0
+				var hdrs []int
+				for _, p := range pkts {
+					hdrs = append(hdrs, hoff)
+					hoff += 8 + len(p.Body)
+				}
+				for m := 0; m < g.Rng.Range(1, 2); m++ {
+					h := hdrs[g.Rng.Intn(len(hdrs))]
+					switch g.Rng.Intn(5) {
+					case 0: // length below the header size
+						mut[h+2], mut[h+3] = 0, byte(g.Rng.Intn(8))
+					case 1: // another channel
+						mut[h+4], mut[h+5] = byte(g.Rng.Intn(2)), byte(g.Rng.Range(1, 255))
+					case 2:
+						mut[h+0] = byte(g.Rng.Intn(256))
+					case 3:
+						mut[h+1] = byte(g.Rng.Intn(256))
+					default:
+						mut[h+g.Rng.Intn(8)] = byte(g.Rng.Intn(256))
+					}
+				}
+				saved := wire
+				wire = mut
+				emit(len(mut), []int{len(mut)}, 0, "wire-fuzz")
+				wire = saved
+			}
+		}
+		if g.WantTag("wire-fuzz") && i < 40 {
+			for r := 0; r < 6; r++ {
+				saved := wire
+				wire = g.Rng.Bytes(g.Rng.Range(0, 64))
+				if g.Rng.Intn(2) == 0 && len(wire) >= 4 { // plausible small length so that bodies are present
+					wire[2], wire[3] = 0, byte(g.Rng.Range(0, 24))
+				}
+				emit(len(wire), []int{len(wire)}, 0, "wire-fuzz")
+				wire = saved
+			}
+		}
 	}
 }
